@@ -57,7 +57,8 @@ Events == /\ Is("robs_events")
           /\ UNCHANGED <<kind, coll, isDone, sub, lastOp>>
 
 Mirror == /\ Is("robs_mirror")
-          /\ bad' = IF Ev.err # "" THEN Flag("C14", "mirror reports an error although nothing was skipped, dropped or cut")
+          /\ bad' = IF Ev.err # "" /\ (IOEnv.CHECK = "C13" \/ IOEnv.CHECK = "ALL") THEN Flag("C13", "mirror failed (" \o Ev.err \o ") although every emitted event applies to it, after " \o lastOp)
+                    ELSE IF Ev.err # "" THEN Flag("C14", "mirror reports an error although nothing was skipped, dropped or cut")
                     ELSE IF Value(kind, Ev.contents) # coll THEN Flag("C13", "mirror differs from the observed collection after " \o lastOp)
                     ELSE IF Ev.done # isDone THEN Flag("C13", "mirror's done flag differs from the collection's after " \o lastOp)
                     ELSE IF ~Ev.complete THEN Flag("C13", "mirror is not complete although the initial contents were delivered")
